@@ -125,12 +125,39 @@ type vCtlMon struct {
 	release       chan struct{}
 	heldCount     int64
 	queuedBefore  int64
+	plantIn       atomic.Value // string: base path in which the next START's state file is to be made uncreatable
+	planted       int64
 }
 
 func (m *vCtlMon) handlers() *verifHandlers {
 	return &verifHandlers{
 		Point: func(name string) {
 			switch name {
+			case "write.start.dirmade":
+				// single I/O fault: the experiment-state file of the run that is being started cannot be created
+				if base, _ := m.plantIn.Load().(string); base != "" {
+					m.plantIn.Store("")
+					today := time.Now().Format("20060102")
+					runs, _ := os.ReadDir(filepath.Join(strings.TrimPrefix(base, "full:"), today))
+					newest := ""
+					for _, rd := range runs {
+						if rd.IsDir() && len(rd.Name()) == 4 && rd.Name() > newest {
+							newest = rd.Name()
+						}
+					}
+					if newest != "" {
+						target := filepath.Join(base, today, newest, fmt.Sprintf("%s_run%s_experiment_state.txt", today, newest))
+						if strings.HasPrefix(base, "full:") {
+							// the file can be created but every write to it fails (a full disk)
+							target = filepath.Join(base[5:], today, newest, fmt.Sprintf("%s_run%s_experiment_state.txt", today, newest))
+							if os.Symlink("/dev/full", target) == nil {
+								atomic.AddInt64(&m.planted, 1)
+							}
+						} else if os.MkdirAll(target, 0o755) == nil {
+							atomic.AddInt64(&m.planted, 1)
+						}
+					}
+				}
 			case "core.process.end":
 				atomic.AddInt64(&m.processEnds, 1)
 			case "rpc.queue.before":
@@ -201,6 +228,7 @@ type vCtl struct {
 	chanNum0   int  // channel number of channel index 0
 	archiving  bool // a raw-data request may still be pending
 	lenUnknown bool // a refused length change may have been applied to some channels: shapes are no longer predictable
+	stateFull  bool // writes to the current run's experiment-state file fail: label requests may be refused
 	emtOn      bool // an edge-multi request was accepted: validity of record lengths now also depends on its parameters
 	hist       []string
 	dead       bool
@@ -569,16 +597,32 @@ func (k *vCtl) reqWriteControl() {
 	switch {
 	case strings.HasPrefix(up, "PAUSE"):
 	case strings.HasPrefix(up, "UNPAUSE"):
-		if len(req) > 7 && (req[7] != ' ' || len(req) == 8 || !k.wActive) {
+		if len(req) > 7 && (req[7] != ' ' || len(req) == 8 || !k.wActive || k.stateFull) {
 			want = "err"
 		}
 	case strings.HasPrefix(up, "STOP"):
+		if k.stateFull && k.wActive {
+			want = "any" // the STOP line cannot be written either
+		}
 	case strings.HasPrefix(up, "START"):
 		switch {
 		case k.wActive || !(l22 || l3 || of) || (of && !anyProj):
 			want = "err"
 		default:
 			if vChance(r, 0.15) {
+				// single I/O fault: the experiment-state file cannot be created (a directory is in its place)
+				k.mon.plantIn.Store(k.dir)
+				fault = " [experiment-state file uncreatable]"
+				want = "err"
+				k.c.Cov("io_fault_state_file", 1)
+			} else if vChance(r, 0.12) {
+				// single I/O fault: every write to the experiment-state file of this run fails (disk full)
+				k.mon.plantIn.Store("full:" + k.dir)
+				fault = " [writes to the experiment-state file fail]"
+				want = "any"
+				k.stateFull = true
+				k.c.Cov("io_fault_state_file_full", 1)
+			} else if vChance(r, 0.15) {
 				// single I/O fault: the output base path is a regular file
 				path = filepath.Join(k.dir, "not_a_directory")
 				os.WriteFile(path, []byte("x"), 0o644)
@@ -603,7 +647,17 @@ func (k *vCtl) reqWriteControl() {
 	var okay bool
 	cfg := &WriteControlConfig{Request: req, Path: path, WriteLJH22: l22, WriteLJH3: l3, WriteOFF: of}
 	err, ret := k.do(fmt.Sprintf("WriteControl(%q,ljh22=%v,ljh3=%v,off=%v)%s", req, l22, l3, of, fault), w, func() error { return k.sc.WriteControl(cfg, &okay) })
-	if !ret || w != "ok" || err != nil {
+	k.mon.plantIn.Store("")
+	if ret && strings.HasPrefix(up, "START") && want == "any" && err != nil {
+		k.stateFull = false // the failed START left nothing behind
+	}
+	if ret && strings.HasPrefix(up, "STOP") && k.stateFull {
+		// whatever the reply, writing is off afterwards
+		k.wActive, k.wPaused, k.stateFull = false, false, false
+		k.comment = ""
+		return
+	}
+	if !ret || (w != "ok" && w != "any") || err != nil {
 		if ret && err != nil && strings.Contains(err.Error(), "map file invalidated") {
 			k.mapLoaded = false
 		}
@@ -638,6 +692,8 @@ func (k *vCtl) reqStateLabel() {
 		want = k.gate()
 	case !k.wActive:
 		want = "err"
+	case k.stateFull:
+		want = "err" // the write fails: the caller must be told
 	}
 	var okay bool
 	k.do(fmt.Sprintf("SetExperimentStateLabel(len=%d,wait)", len(label)), want, func() error {
@@ -902,6 +958,7 @@ func vRunControl(c *vCase) {
 	kind := []string{"triangle", "triangle", "lancero", "selfend", "selfend", "erroring"}[c.Idx%6]
 	mon := &vCtlMon{held: make(chan struct{}, 1), release: make(chan struct{})}
 	mon.overlap.Store("")
+	mon.plantIn.Store("")
 	verifInstall(mon.handlers())
 	defer verifInstall(nil)
 	sc, stopHB := vNewInPackageControl()
@@ -1098,11 +1155,11 @@ func init() {
 		},
 		Run: vRunControl,
 		Meta: vMeta{Level: "exploration",
-			Rule: "case = one client session against an in-package SourceControl: 1-3 requests with no source, Start of Triangle / scripted Lancero card / ErroringSource / a self-ending source (error block or closed channel at a scripted request index, requests continuing at once or after it settled), then 12-30 requests drawn from every queued request type with valid and invalid arguments (negative, too large, empty, nil and 2^40 channel indices, invalid pulse lengths, malformed/truncated/empty/wrong-shape matrices, every write-control string with all file-type subsets, empty/huge labels and comments, coupling on sources without it, mix lists of unequal length, raw-block sizes 0/negative/2^50, pixel maps that do not cover the channel numbers) and single I/O faults (output base path is a file, comment.txt uncreatable); 15 % of the requests are issued while the hook holds a block inside ProcessSegments. Monitors: reply class vs. model, effect/ProcessSegments span overlap, >=2 further blocks processed after each reply, every call returns (wait-state analysis), process crash = violation of the journaled case; non-trivial = session completed",
+			Rule: "case = one client session against an in-package SourceControl: 1-3 requests with no source, Start of Triangle / scripted Lancero card / ErroringSource / a self-ending source (error block or closed channel at a scripted request index, requests continuing at once or after it settled), then 12-30 requests drawn from every queued request type with valid and invalid arguments (negative, too large, empty, nil and 2^40 channel indices, invalid pulse lengths, malformed/truncated/empty/wrong-shape matrices, every write-control string with all file-type subsets, empty/huge labels and comments, coupling on sources without it, mix lists of unequal length, raw-block sizes 0/negative/2^50, pixel maps that do not cover the channel numbers) and single I/O faults (output base path is a file, comment.txt uncreatable, experiment-state file uncreatable); 15 % of the requests are issued while the hook holds a block inside ProcessSegments. Monitors: reply class vs. model, effect/ProcessSegments span overlap, >=2 further blocks processed after each reply, every call returns (wait-state analysis), process crash = violation of the journaled case; non-trivial = session completed",
 			Assumptions: []string{"single client (one goroutine issuing requests)", "the fire-and-forget mode of SetExperimentStateLabel is excluded as the property says", "where the statement does not fix the reply (raw-block size 0, deleting a connection that cannot exist, reading a comment after self-termination) either reply is accepted",
 				"hangs are decided by wait-state analysis of two goroutine dumps 2 s apart after a 15 s watchdog, never by the clock alone"},
 			Guards: map[string]map[string]int{
-				"quick":    {"requests": 2500, "progress_checks": 1000, "requests_while_block_in_process": 100, "requests_after_self_termination": 150, "requests_pending_when_source_ends": 8, "io_fault_comment": 5, "effects_run": 800, "source_triangle": 40, "source_lancero": 20, "source_selfend": 40, "source_erroring": 20, "writing_sessions": 30, "restarts_through_the_server": 120, "stop_is_first_request_after_self_termination": 8},
+				"quick":    {"requests": 2500, "progress_checks": 1000, "requests_while_block_in_process": 100, "requests_after_self_termination": 150, "requests_pending_when_source_ends": 8, "io_fault_comment": 5, "io_fault_state_file": 8, "effects_run": 800, "source_triangle": 40, "source_lancero": 20, "source_selfend": 40, "source_erroring": 20, "writing_sessions": 30, "restarts_through_the_server": 120, "stop_is_first_request_after_self_termination": 8},
 				"thorough": {"requests": 30000, "requests_after_self_termination": 2000},
 			}},
 	})
